@@ -275,7 +275,10 @@ def run_case(ctx, case):
                                         "dtype": case["acc"], "want": [int(v) for v in ref.reshape(-1)], "got": [int(v) for v in got.reshape(-1)]})
         return Result(True, True, None, "integral/" + case["acc"])
     if kind == "integral":
-        if case["inplace"] and a0.dtype == np.float64:
+        if case["inplace"]:
+            # in place on a view of any writable layout (the kernel may not assume contiguous rows); as doubles, so that every
+            # in-place case exercises this
+            a0 = a0.astype(np.float64)
             b = apply_layout(a0, case["layout"] if case["layout"] != "readonly" else "C", fill=1)
             got = surf.integral(b, in_place=True)
         else:
